@@ -241,9 +241,68 @@ func reservedVars(r *rep.Report, e rep.Env) {
 	}
 }
 
+// sharedValues: bindings can hold structured values (a map or an array taken from the event or
+// from a fact).  An action that writes into such a value writes into its own copy: the other
+// executions of the event (other actions, other binding sets, other rules) see the value as matched.
+func sharedValues(r *rep.Report, e rep.Env) {
+	for _, kind := range drv.Kinds {
+		for _, serial := range []bool{true, false} {
+			for _, src := range []string{"event", "fact"} {
+				loc, err := drv.NewLoc("V", kind, drv.MustMem())
+				if err != nil {
+					r.Violate("", "cannot build location", nil)
+					return
+				}
+				act := func(tag string) map[string]interface{} {
+					return map[string]interface{}{"code": "var seen = o.n + ':' + o.tags[0]; o.n = o.n + 1; o.tags[0] = 'changed by " + tag + "'; '" + tag + " saw ' + seen"}
+				}
+				rule := core.Map{"actions": []interface{}{act("a0"), act("a1"), act("a2")}}
+				ev := core.Map{"go": "now"}
+				if src == "event" {
+					rule["when"] = map[string]interface{}{"pattern": map[string]interface{}{"go": "now", "obj": "?o"}}
+					ev["obj"] = map[string]interface{}{"n": 1.0, "tags": []interface{}{"t"}}
+				} else {
+					rule["when"] = map[string]interface{}{"pattern": map[string]interface{}{"go": "now"}}
+					rule["condition"] = map[string]interface{}{"pattern": map[string]interface{}{"holds": "?o"}}
+					loc.AddFact(drv.Ctx(), "f", core.Map{"holds": map[string]interface{}{"n": 1.0, "tags": []interface{}{"t"}}})
+				}
+				if serial {
+					rule["policies"] = map[string]interface{}{"serialActions": true}
+				}
+				if _, err := loc.AddRule(drv.Ctx(), "sv", rule); err != nil {
+					r.Violate("", "AddRule failed: "+err.Error(), nil)
+					continue
+				}
+				var all []string
+				for round := 0; round < 2; round++ { // the second event must find everything as matched again
+					fr, cond := loc.ProcessEvent(drv.Ctx(), core.Map(ref.CloneMap(ev)))
+					vals := []string{}
+					if fr != nil {
+						for _, v := range fr.Values {
+							vals = append(vals, fmt.Sprint(v))
+						}
+					}
+					sort.Strings(vals)
+					all = append(all, strings.Join(vals, ","))
+					if cond != nil {
+						all = append(all, "FAILED: "+cond.Msg)
+					}
+				}
+				want := "a0 saw 1:t,a1 saw 1:t,a2 saw 1:t"
+				r.Case(true, fmt.Sprint("shared-values", kind, serial, src))
+				r.Count("shared_value_cases", 1)
+				if all[0] != want || len(all) != 2 || all[1] != want {
+					r.Violate("", "an action that wrote into a structured value of its bindings changed what other executions (or the next event) see", rep.J{"state": kind, "serial_actions": serial, "value_bound_from": src, "values_per_event": all, "want_each": want})
+				}
+			}
+		}
+	}
+}
+
 func main() {
 	e := rep.GetEnv()
 	r := rep.New(e)
+	sharedValues(r, e)
 	systemWrites(r, e)
 	triggered(r, e)
 	reservedVars(r, e)
